@@ -234,7 +234,7 @@ def model_lits(d):
     return [v if d[v] else -v for v in sorted(d)]
 
 
-def run_impl(case):
+def run_impl(case, timeout=5):
     """Run solve_sat under the hook and the time guard.  Module-level (used with pmap)."""
     import time
 
@@ -243,7 +243,7 @@ def run_impl(case):
     S._VERIF_TRACE = []
     kw = dict(case["kw"])
     t0 = time.time()
-    res = guarded(S.solve_sat, [list(c) for c in case["clauses"]], assumptions=list(case["assumptions"]) or None, timeout=5, **kw)
+    res = guarded(S.solve_sat, [list(c) for c in case["clauses"]], assumptions=list(case["assumptions"]) or None, timeout=timeout, **kw)
     dt = time.time() - t0
     trace = S._VERIF_TRACE or []
     S._VERIF_TRACE = None
@@ -449,12 +449,19 @@ def coq_expressible(out):
 
 
 # ------------------------------------------------------------------------------------------- shrinking
-def shrink(case, still_fails, max_steps=400):
-    """Greedy: drop clauses, assumptions, then literals while `still_fails(case)` holds."""
+def shrink(case, still_fails0, max_steps=400, seconds=40):
+    """Greedy: drop clauses, assumptions, then literals while `still_fails(case)` holds (bounded by steps and wall time)."""
+    import time
+
+    t_end = time.time() + seconds
+
+    def still_fails(t):
+        return time.time() < t_end and still_fails0(t)
+
     cur = json.loads(json.dumps(case))
     steps = 0
     changed = True
-    while changed and steps < max_steps:
+    while changed and steps < max_steps and time.time() < t_end:
         changed = False
         for i in range(len(cur["clauses"]) - 1, -1, -1):
             if len(cur["clauses"]) <= 1:
@@ -517,10 +524,9 @@ def run_engine(ctx: Ctx, pid: str):
     max_learn = 400 if big else 150
     judge = (lambda c, o, t, ku=False: judge_c01(c, o, t)) if pid == "C01" else judge_c02
 
-    cases = load_corpus(pid) + fixed_cases(ctx.rng, big)
+    cases = [c for c in load_corpus(pid) + fixed_cases(ctx.rng, big) if valid_input(c)]
     n_rand = ctx.budget(600, 6000)
-    cases += [gen_case(ctx.rng, big) for _ in range(n_rand)]
-    cases = [c for c in cases if valid_input(c)]
+    rand_cases = [c for c in (gen_case(ctx.rng, big) for _ in range(n_rand)) if valid_input(c)]
 
     # pinned quirks outside valid_input: observed, counted, never judged
     for qc, (exp_outcome, exp_detail) in QUIRKS:
@@ -529,6 +535,12 @@ def run_engine(ctx: Ctx, pid: str):
         ctx.count("quirk_outside_valid_input", f"{qc['family']}:{got[0]}/{got[1]}")
 
     outs = pmap(run_impl, cases)
+    hangs = sum(1 for o in outs if o["outcome"] == "hang")
+    if hangs >= 5:  # broken tree: every hang costs 5 s, a small random batch is enough to report
+        ctx.notes.append(f"{hangs} hangs among the {len(cases)} corpus/fixed cases: random batch cut to 60 cases")
+        rand_cases = rand_cases[:60]
+    outs += pmap(run_impl, rand_cases)
+    cases = cases + rand_cases
     coq_cases, coq_meta = [], []
     skipped_long = 0
     first_bad = None
@@ -569,7 +581,7 @@ def run_engine(ctx: Ctx, pid: str):
                 first_bad = (case, out, bad)
 
                 def fails(t):
-                    return bool(judge(t, run_impl(t), Truth(t["clauses"], t["assumptions"]), False))
+                    return bool(judge(t, run_impl(t, 2), Truth(t["clauses"], t["assumptions"]), False))
 
                 small = shrink(case, fails) if len(cl) <= 300 else case
                 o2 = run_impl(small)
@@ -626,9 +638,14 @@ def run_engine(ctx: Ctx, pid: str):
 
     if (mine or ctx.broken) and not ctx.violations:
         # search harder for a failing input with the independent oracle
+        import time
+
         found = False
         seeds = [m[0] for m in mine]
+        t_end = time.time() + (90 if not big else 400)
         for k in range(6000 if not big else 20000):
+            if time.time() > t_end:
+                break
             if seeds and k % 3 == 0:
                 base = ctx.rng.choice(seeds)
                 t = json.loads(json.dumps(base))
@@ -645,7 +662,7 @@ def run_engine(ctx: Ctx, pid: str):
             o = run_impl(t)
             bad = judge(t, o, Truth(t["clauses"], t["assumptions"]), False)
             if bad:
-                small = shrink(t, lambda u: bool(judge(u, run_impl(u), Truth(u["clauses"], u["assumptions"]), False)))
+                small = shrink(t, lambda u: bool(judge(u, run_impl(u, 2), Truth(u["clauses"], u["assumptions"]), False)))
                 o2 = run_impl(small)
                 ctx.violation(f"solve_sat {judge(small, o2, Truth(small['clauses'], small['assumptions']), False) or bad}",
                               {"clauses": small["clauses"], "assumptions": small["assumptions"], "kw": small["kw"],
